@@ -600,6 +600,12 @@ acquire_stop(struct AcquireRuntime* self_)
             // later acquire_map_read().
             video->monitor.reader.status = Channel_Ok;
         }
+
+        // The workers are gone and every registered reader has been drained:
+        // retire the current lap. A monitoring client that starts reading
+        // only now (or during a later acquisition) registers at the start of
+        // the lap and must not be handed this acquisition's frames.
+        channel_start_new_lap_if_drained(&video->sink.in);
     }
     self->state = DeviceState_Armed;
 
